@@ -12,73 +12,73 @@ CHECKS = {
     technique="TLA+ reference semantics (Words/ISA) + TLC-generated cases replayed into the real parser + TLC trace validation of recorded results"),
  "C17": dict(
     category="model_checking",
-    text="TLC enumerates Gen_Lit exhaustively (24 boundary magnitudes held as 16-bit limbs so that 2^32 and 2^33 exist, x notation x sign x case x leading zero x 6 operand contexts); the driver adds a malformed-spelling table, character literals and seeded random 34-bit values. Each spelling is parsed by the real parser and TLC validates the recorded imm / data value / csr number (or the parse error and its location) against Text!Denote. Finite boundary family exhaustive, remainder sampled.",
+    text="TLC enumerates Gen_Lit exhaustively (24 boundary magnitudes held as 16-bit limbs so that 2^32 and 2^33 exist, x notation x sign x case x leading zero x 6 operand contexts); the driver adds a malformed-spelling table, character literals and seeded random 34-bit values. Each spelling is parsed by the real parser and TLC validates the recorded imm / data value / csr number (or the parse error and its location) against Text!Denote. Finite boundary family exhaustive, remainder sampled. Also: Gen_CharLit - the grammar of character literals with its well-formed members and its near misses (every position of \\uXXXX replaced by a non-digit, too few / too many digits, unknown escapes, empty and two-character literals).",
     design_ref="DESIGN.md §5 C17",
     note="Trusted: TLC, Text!Denote (cross-checked per event against the generator's own magnitude), the character-literal table and Python spelling of random values. Weakest reading of 'fits in 32 bits' (see Trace_Lit header).",
     technique="TLA+ literal denotation (Text!Denote) + TLC-generated spellings replayed into the real parser + TLC trace validation"),
  "C09": dict(
     category="model_checking",
-    text="TLC enumerates Gen_Layout (12 statement templates squared x leading blank lines x indentation x trailing comment x two statements on a line x base/included file; 20736 layouts, quick tier runs every 8th) and computes every statement/operand span from string lengths; the real lexer, parser and full lint pipeline run on each layout and TLC validates every reported location (tokens, nodes, operand tokens, parse errors, CFG errors, lint diagnostics) against Text!PosOf of the named file and against the generated spans; repository and corpus programs are validated for consistency as recorded traces.",
+    text="TLC enumerates Gen_Layout (12 statement templates squared x leading blank lines x indentation x trailing comment x two statements on a line x base/included file; 20736 layouts, quick tier runs every 8th) and computes every statement/operand span from string lengths; the real lexer, parser and full lint pipeline run on each layout and TLC validates every reported location (tokens, nodes, operand tokens, parse errors, CFG errors, lint diagnostics) against Text!PosOf of the named file and against the generated spans; repository and corpus programs are validated for consistency as recorded traces. Also: every operand form of jalr and escapes in character literals among the templates (20 templates), corpus programs cut into two files at every line in both orders, and injected-violation programs with their functions moved into an included file (lints that relate two places then relate two files).",
     design_ref="DESIGN.md §5 C09",
     note="Trusted: TLC, Text.tla position function, harness projection. Inclusive range ends; label range includes the colon; CRLF handled under C07.",
     technique="TLA+ position function (Text!PosOf) + TLC-generated layouts replayed into lexer/parser/lints + TLC trace validation of every reported location"),
  "C07": dict(
     category="model_checking",
-    text="TLC enumerates Gen_Lines exhaustively (all NL-line files over 9 well-formed line kinds with one malformed line of 13 fault kinds at every position, 3 line endings; NL=3 quick / NL=4 thorough), each with its twin where the malformed line is deleted; the real parser runs on both and TLC validates the recorded (nodes, errors): every non-blank, non-comment line is covered by a node or by an error located on it (Accounted), and the nodes/errors of all other lines equal the twin's (Contained). Every fifth file goes through .include; faults are also injected into repository/corpus programs.",
+    text="TLC enumerates Gen_Lines exhaustively (all NL-line files over 9 well-formed line kinds with one malformed line of 13 fault kinds at every position, 3 line endings; NL=3 quick / NL=4 thorough), each with its twin where the malformed line is deleted; the real parser runs on both and TLC validates the recorded (nodes, errors): every non-blank, non-comment line is covered by a node or by an error located on it (Accounted), and the nodes/errors of all other lines equal the twin's (Contained). Every fifth file goes through .include; faults are also injected into repository/corpus programs. Also: Gen_Strays (29 stray symbols alone / before / inside / after / glued to an instruction at every line position), Gen_TokLines (every sequence of up to 3, thorough 4, tokens over 12 token classes as middle / last / unterminated last line), missing-include fault lines; and the as-built binding Trace_ParseLoop: step traces of the parser's statement loop recorded by rva_verif hooks (statement begin/end, every token taken, recovery, lexer stack) are judged token by token - a statement lives on one line, error recovery consumes at most the rest of its own line, a statement cut by the end of a file does not vanish.",
     design_ref="DESIGN.md §5 C07",
     note="Trusted: TLC, Text.tla line functions, harness projection. Blank = only spaces/tabs/commas/CR; comment-only = first other char '#'.",
     technique="TLA+ line-accounting reference (Text.tla) + TLC-generated faulty files and twins replayed into the real parser + TLC trace validation"),
  "C03": dict(
     category="model_checking",
-    text="Static part of C03. TLC generates control-flow / call-graph / label arrangements from Gen_Flow (tlc -simulate over programs of 3..7 instructions in four shapes; exhaustive n=2 in the thorough tier); the real pipeline builds the finished Cfg and TLC validates each recorded graph against CfgRef: successor/predecessor symmetry; every edge justified (fall-through, written label, merge of an additional return into a function exit); every edge the reference requires of a reachable node present (fall-through, branch/jump target, return from call); no edge after an exit ecall; no reference-reachable node reported as unreachable code. Dynamic part: the edge monitor of Machine.tla checks, on executions of Gen_Values/Gen_Flow/corpus programs, that consecutive executed instructions of one frame are joined by an edge and that no executed instruction carries an unreachable-code diagnostic.",
+    text="Static part of C03. TLC generates control-flow / call-graph / label arrangements from Gen_Flow (tlc -simulate over programs of 3..7 instructions in four shapes; exhaustive n=2 in the thorough tier); the real pipeline builds the finished Cfg and TLC validates each recorded graph against CfgRef: successor/predecessor symmetry; every edge justified (fall-through, written label, merge of an additional return into a function exit); every edge the reference requires of a reachable node present (fall-through, branch/jump target, return from call); no edge after an exit ecall; no reference-reachable node reported as unreachable code. Dynamic part: the edge monitor of Machine.tla checks, on executions of Gen_Values/Gen_Flow/corpus programs, that consecutive executed instructions of one frame are joined by an edge and that no executed instruction carries an unreachable-code diagnostic. Also: Gen_Shared (256 programs of two functions sharing a tail, every layout / way in / own-or-shared return / order of calls / result read or not), jumps that link into registers other than ra, trap tables of dead loops, chains of dependent exit ecalls. The static reading requires a fall-through edge after an ecall only when the analyzer itself claims a constant a7 other than 10/93; otherwise the machine's edge monitor decides.",
     design_ref="DESIGN.md §5 C03",
     note="Trusted: TLC, CfgRef.tla, harness projection (edges by Rc pointer identity). Exit ecalls taken from the analyzer's own a7 facts (C01 validates them). Domain: no indirect jumps but ret, no path running off the end of the file.",
     technique="TLA+ reference CFG (CfgRef) + TLC-simulated/enumerated flow programs replayed into the real pipeline + TLC trace validation of the recorded graph"),
  "C11": dict(
     category="model_checking",
-    text="Same generated arrangements as C03 (several labels on one entry, interleaved bodies, shared tails, fall-through entries, recursion, calls from dead code, multiple returns). TLC validates the recorded function table against CfgRef: function entries are exactly the call targets; each body equals reachability from its entry over the recorded edges; per-node owner lists agree with the bodies; each exit is a return inside the body reached by every other return; node-in-many-functions is reported exactly for shared entries (sharing without a shared entry is a recorded finding).",
+    text="Same generated arrangements as C03 (several labels on one entry, interleaved bodies, shared tails, fall-through entries, recursion, calls from dead code, multiple returns). TLC validates the recorded function table against CfgRef: function entries are exactly the call targets; each body equals reachability from its entry over the recorded edges; per-node owner lists agree with the bodies; each exit is a return inside the body reached by every other return; node-in-many-functions is reported exactly for shared entries (sharing without a shared entry is a recorded finding). Also: Gen_Shared (functions sharing code in every layout), trap tables, chained exits.",
     design_ref="DESIGN.md §5 C11",
     note="Trusted: TLC, CfgRef.tla, harness projection. Alias labels on one instruction share the function. Interrupt-handler discovery is not generated by Gen_Flow.",
     technique="TLA+ reference function discovery/body definitions (CfgRef) + TLC-generated call-graph arrangements replayed into the real pipeline + TLC trace validation"),
  "C16": dict(
     category="model_checking",
-    text="Same generator, including its ill-formed shapes (undefined labels in jumps/branches/calls/la, a duplicated label, labels at end of file, functions without return, returns outside functions, calls into data labels). TLC validates the recorded outcome: undefined/duplicate labels are detected and located on an occurrence of that label (slice of the file text), any other stop of the analysis is a specific error in the base file, never 'Unexpected error' / nil file.",
+    text="Same generator, including its ill-formed shapes (undefined labels in jumps/branches/calls/la, a duplicated label, labels at end of file, functions without return, returns outside functions, calls into data labels). TLC validates the recorded outcome: undefined/duplicate labels are detected and located on an occurrence of that label (slice of the file text), any other stop of the analysis is a specific error in the base file, never 'Unexpected error' / nil file. Also: the labels a statement names are read off the parsed statement itself (not the implementation's jumps_to / calls_to), jumps that link into other registers than ra, tables of dead loops (analysis must not give up with a generic error).",
     design_ref="DESIGN.md §5 C16",
     note="Trusted: TLC, Text.tla slices, harness projection. Single-file programs (visibility = attributed to the base file); multi-file visibility is C15/C18.",
     technique="TLA+ failure contract (Trace_Cfg!JudgeC16) + TLC-generated ill-formed programs replayed into the real pipeline + TLC trace validation"),
  "C01": dict(
     category="model_checking",
-    text="Programs sampled by tlc -simulate from Gen_Values (alphabet covering every rule of the value analysis: sp arithmetic, word/byte spills and reloads, constant folding on boundary operands, copies, address loads, ecall results, calls to three convention-respecting callees incl. recursion, forward branches/merges) and Gen_Flow, plus repository and hand-written corpus programs, are analysed by the real pipeline; the recorded in/out register and stack claims are judged by TLC executing each program on the reference RV32IM machine (Machine.tla, call frames, byte-accurate little-endian memory) from 3 initial valuations x 2 environment-call outcomes, evaluating ClaimsTrue before and after every executed instruction.",
+    text="Programs sampled by tlc -simulate from Gen_Values (alphabet covering every rule of the value analysis: sp arithmetic, word/byte spills and reloads, constant folding on boundary operands, copies, address loads, ecall results, calls to three convention-respecting callees incl. recursion, forward branches/merges) and Gen_Flow, plus repository and hand-written corpus programs, are analysed by the real pipeline; the recorded in/out register and stack claims are judged by TLC executing each program on the reference RV32IM machine (Machine.tla, call frames, byte-accurate little-endian memory) from 3 initial valuations x 2 environment-call outcomes, evaluating ClaimsTrue before and after every executed instruction. Also: Gen_FoldProg (every register-register and register-immediate operator on boundary operands, the folded result used as ecall number and argument; extreme pairs always, the rest rotating), signed/unsigned compare-with-zero branches in Gen_Values, Gen_Shared programs.",
     design_ref="DESIGN.md §5 C01",
     note="Trusted: TLC, ISA/Words/Machine.tla, harness projection. Judged claim kinds: constant, label address, entry value + constant. Executions leaving the supported subset stop being judged (never a violation). Bounded: sampled programs of <= ~25 instructions, fuel 160, recursion depth 6.",
     technique="TLA+ executable reference machine with claim monitor + TLC-simulated programs replayed into the real analysis + TLC validation of the recorded facts by execution"),
  "C02": dict(
     category="model_checking",
-    text="Static: for every analysed program (same population as C01) TLC recomputes the least solution of the documented liveness equations (Dataflow!LiveLFP, Kleene iteration from empty sets over the recorded graph and function table) and compares every live_in/live_out set, every function's inferred arguments/returns and every unused-value warning with the recorded ones (missing = coverage defect, extra = not forced by the equations). Dynamic: the live monitor of Machine.tla flags any executed read of a register that was reported not-live at some executed instruction since its last definition, with calls/ecalls defining and reading registers as the convention says.",
+    text="Static: for every analysed program (same population as C01) TLC recomputes the least solution of the documented liveness equations (Dataflow!LiveLFP, Kleene iteration from empty sets over the recorded graph and function table) and compares every live_in/live_out set, every function's inferred arguments/returns and every unused-value warning with the recorded ones (missing = coverage defect, extra = not forced by the equations). Dynamic: the live monitor of Machine.tla flags any executed read of a register that was reported not-live at some executed instruction since its last definition, with calls/ecalls defining and reading registers as the convention says. Also: Gen_Shared programs (shared epilogues with own or shared returns, results read or not), Gen_Ecall. Arguments of an ecall whose number the analysis does not know, and programs that jump to a function entry, are recorded findings with their own keys.",
     design_ref="DESIGN.md §5 C02",
     note="Trusted: TLC, Dataflow.tla (transcription of the documented equations, incl. jump-to-function-label = call site), Machine.tla, harness projection. ecall signatures from the analyzer's a7 facts + documented table.",
     technique="TLA+ least-fixed-point reference (Dataflow!LiveLFP) + executable machine with live monitor + TLC-simulated programs replayed into the real analysis + TLC trace validation"),
  "C10": dict(
     category="model_checking",
-    text="Programs from Gen_Values / Gen_Flow (tlc -simulate: shared code, several labels per entry, several returns, undefined-label sets), the corpus, hand-written order-sensitive programs and a three-file include program are linted R times in one process through RVParser::run (fresh UUIDs and hash seeds per parse) and P times per output mode (--json, --compact, --compact --all-files, --no-color, --yaml) in separate rva processes; TLC validates the recorded runs with Trace_Runs: all runs of a program identical (items, order, bytes) and no run with two diagnostics equal in kind, location, message and related information.",
+    text="Programs from Gen_Values / Gen_Flow (tlc -simulate: shared code, several labels per entry, several returns, undefined-label sets), the corpus, hand-written order-sensitive programs and a three-file include program are linted R times in one process through RVParser::run (fresh UUIDs and hash seeds per parse) and P times per output mode (--json, --compact, --compact --all-files, --no-color, --yaml) in separate rva processes; TLC validates the recorded runs with Trace_Runs: all runs of a program identical (items, order, bytes) and no run with two diagnostics equal in kind, location, message and related information. Also: Gen_Shared programs, twin files (two included files holding code at identical line/column/offset), programs on which two lints or the two nodes of a two-node expansion find the same problem.",
     design_ref="DESIGN.md §5 C10",
     note="Trusted: TLC, harness projection. Detection of a hash-order dependence is probabilistic (R = 8|32 in-process runs, P = 4|8 processes per mode); every order dependence found on the pinned tree was repaired, so no known finding is flaky.",
     technique="TLA+ run-equality / no-duplicate contract (Trace_Runs) + TLC-simulated programs linted repeatedly in-process and in separate processes + TLC trace validation"),
  "C12": dict(
     category="model_checking",
-    text="TLC enumerates every history of extra pass runs over {value analysis, ecall termination, liveness} of length 1..3 (Gen_Hist, 39 histories, exhaustive). For each program (Gen_Values / Gen_Flow simulation, corpus incl. nested loops, irreducible flow, recursion, many call sites) and each history the harness analyses a clone of the same parsed program, applies the history with the real passes and records the observables after every step plus the sweep counters from the rva_verif hooks. Trace_Stable is a stateful trace specification: `analysed` must reproduce the first analysis of the program, `extra(pass)` is accepted only as stuttering on nodes/edges/values/live sets/u_def/functions/lints, and every pass run must stay within 4N+3 sweeps (the limit PassLoop.tla establishes for the iteration scheme: 4N-1 is reached by chains of dead loops). The as-built layer is part of the check: PassLoop.tla (one action per critical section of AvailableValuePass::run - Visit, SweepEnd, Cut, Rerun) is model-checked exhaustively over all graphs with N<=3 (N<=4 thorough) for SweepBound, FixedPoint, Stable, AllVisited and termination, its two pre-repair variants must be refuted (negative controls), and step traces recorded from the real value and liveness pass loops (hooks pass_begin/visit/sweep_end) are validated by Trace_PassLoop against the same operators (PassOps.tla): a run that ends off the fixed point of the meet/join equation or a re-run that changes facts is a violation, any other departure is reported as SPEC-DRIFT.",
+    text="TLC enumerates every history of extra pass runs over {value analysis, ecall termination, liveness} of length 1..3 (Gen_Hist, 39 histories, exhaustive). For each program (Gen_Values / Gen_Flow simulation, corpus incl. nested loops, irreducible flow, recursion, many call sites) and each history the harness analyses a clone of the same parsed program, applies the history with the real passes and records the observables after every step plus the sweep counters from the rva_verif hooks. Trace_Stable is a stateful trace specification: `analysed` must reproduce the first analysis of the program, `extra(pass)` is accepted only as stuttering on nodes/edges/values/live sets/u_def/functions/lints, and every pass run must stay within 4N+3 sweeps (the limit PassLoop.tla establishes for the iteration scheme: 4N-1 is reached by chains of dead loops). The as-built layer is part of the check: PassLoop.tla (one action per critical section of AvailableValuePass::run - Visit, SweepEnd, Cut, Rerun) is model-checked exhaustively over all graphs with N<=3 (N<=4 thorough) for SweepBound, FixedPoint, Stable, AllVisited and termination, its two pre-repair variants must be refuted (negative controls), and step traces recorded from the real value and liveness pass loops (hooks pass_begin/visit/sweep_end) are validated by Trace_PassLoop against the same operators (PassOps.tla): a run that ends off the fixed point of the meet/join equation or a re-run that changes facts is a violation, any other departure is reported as SPEC-DRIFT. Hangs (no result within the watchdog) are violations here too; twin-file programs, Gen_Shared programs and chains of dependent exit ecalls are part of the population.",
     design_ref="DESIGN.md §5 C12",
     note="Trusted: TLC, harness projection (canonical JSON per observable group), rva_verif sweep hooks. Lint lists are compared order-insensitively (order is C10's).",
     technique="TLA+ stateful trace specification (Trace_Stable: extra passes = stuttering) + TLC-enumerated pass histories replayed with the real passes + sweep-counter hooks"),
  "C19": dict(
     category="model_checking",
-    text="TLC enumerates the whole value domain of the dump (Gen_Dump: nine value kinds and three memory-location kinds over boundary registers, offsets incl. i32::MIN/MAX, labels and CSR numbers, exhaustive); every value is serialized and reloaded through the real serde_yaml encoding and Trace_Dump validates reload = original and pairwise distinct text for distinct values. Programs (Gen_Values / Gen_Flow simulation, corpus, CSR programs) are dumped with CfgWrapper, reloaded and re-dumped (nothing lost), and all analysis results of a run that share a dump are compared group by group (nodes, edges, value facts, live sets, function annotations).",
+    text="TLC enumerates the whole value domain of the dump (Gen_Dump: nine value kinds and three memory-location kinds over boundary registers, offsets incl. i32::MIN/MAX, labels and CSR numbers, exhaustive); every value is serialized and reloaded through the real serde_yaml encoding and Trace_Dump validates reload = original and pairwise distinct text for distinct values. Programs (Gen_Values / Gen_Flow simulation, corpus, CSR programs) are dumped with CfgWrapper, reloaded and re-dumped (nothing lost), and all analysis results of a run that share a dump are compared group by group (nodes, edges, value facts, live sets, function annotations). Also: faithfulness of the program dump - the YAML text is decoded by a generic YAML reader (not the dump's own Deserialize) and every node's successors, predecessors, live sets, u_def and (function entry, function exit) pairs are compared by TLC with the analysis result it was written from; Gen_Shared programs (interleaved bodies sharing a non-returning block).",
     design_ref="DESIGN.md §5 C19",
     note="Trusted: TLC, harness (serde_yaml round trip through the public types). ParserNode equality is by unserialized id, so structural equality is judged through the re-dump.",
     technique="TLA+ encoding contract (Trace_Dump: reload identity + injectivity) + TLC-enumerated value domain replayed through the real serializer + TLC trace validation"),
  "C15": dict(
     category="model_checking",
-    text="TLC samples include cuttings from Gen_Include (a segment of the program moved to f1.s, optionally a nested segment to f2.s and a later one to f3.s, every file with/without trailing newline; fault plans: missing file, unreadable file, self-inclusion, inclusion of the parent). Each tree is linted through the in-memory FileReader API (RVParser::run) and through rva on real directories (--json = all files; --compact = base file + hidden count); Trace_Include validates the recorded diagnostics against Include!Flatten: the multiset of (title, severity, file, line, columns) equals that of the flattened single file mapped back to its origins; for a faulty directive exactly one reader error sits on the directive's line and everything else equals the tree with that line blank.",
+    text="TLC samples include cuttings from Gen_Include (a segment of the program moved to f1.s, optionally a nested segment to f2.s and a later one to f3.s, every file with/without trailing newline; fault plans: missing file, unreadable file, self-inclusion, inclusion of the parent). Each tree is linted through the in-memory FileReader API (RVParser::run) and through rva on real directories (--json = all files; --compact = base file + hidden count); Trace_Include validates the recorded diagnostics against Include!Flatten: the multiset of (title, severity, file, line, columns) equals that of the flattened single file mapped back to its origins; for a faulty directive exactly one reader error sits on the directive's line and everything else equals the tree with that line blank. Also: the text channel under --all-files must show everything and announce no hidden diagnostics.",
     design_ref="DESIGN.md §5 C15",
     note="Trusted: TLC, Include.tla, harness MemReader (a correct reader reports already-read files), driver file construction. Parse errors are compared by (severity, file, line) only; reader error messages normalised to their kind.",
     technique="TLA+ textual-inclusion reference (Include!Flatten/Origin) + TLC-simulated include cuttings and reader faults replayed through library and CLI + TLC trace validation"),
@@ -90,31 +90,31 @@ CHECKS = {
     technique="TLA+ channel-agreement specification (Trace_Chan, stateful severity map) + real rva stdout in every mode recorded as traces + TLC trace validation"),
  "C13": dict(
     category="model_checking",
-    text="TLC enumerates Gen_Rewrite exhaustively: all compositions of at most 2 (quick) / 4 (thorough) rewrites out of ten dimensions (separators, indentation, comments, blank lines, mnemonic case, numeric/ABI/fp register names, decimal/hex/binary/character immediates, label placement, omitted zero offset, pseudo-instruction vs official expansion), applied at every site or every other site of four base programs (clean and violating). Original and rewritten text are analysed by the real pipeline; Trace_Rel validates each pair: the parsed instruction sequences are equal node by node (pseudo-expansions by ISA!Equivalent on the value grid), and the multisets of (kind, instruction index, operand) of all parse errors, CFG errors and lints are equal.",
+    text="TLC enumerates Gen_Rewrite exhaustively: all compositions of at most 2 (quick) / 4 (thorough) rewrites out of ten dimensions (separators, indentation, comments, blank lines, mnemonic case, numeric/ABI/fp register names, decimal/hex/binary/character immediates, label placement, omitted zero offset, pseudo-instruction vs official expansion), applied at every site or every other site of four base programs (clean and violating). Original and rewritten text are analysed by the real pipeline; Trace_Rel validates each pair: the parsed instruction sequences are equal node by node (pseudo-expansions by ISA!Equivalent on the value grid), and the multisets of (kind, instruction index, operand) of all parse errors, CFG errors and lints are equal. Mnemonic case is varied per letter (upper, capitalised, alternating, last letter only); eight abstract programs incl. an entry shared by two functions under two labels and memory accessed through saved / temporary base registers.",
     design_ref="DESIGN.md §5 C13",
     note="Trusted: TLC, ISA.tla, the renderer lib/absprog.py (its output is re-checked per pair for meaning preservation on the parsed nodes), harness projection.",
     technique="TLA+ relational trace specification (Trace_Rel: same meaning, same verdicts) + TLC-enumerated rewrite compositions rendered and replayed into the real pipeline"),
  "C14": dict(
     category="model_checking",
-    text="TLC enumerates Gen_Rename: identity, every transposition and every rotation of the temporary class t0-t6 and of the saved class s0-s11 (each register of a class is moved), six label renaming schemes (suffix, leading underscore, digits, long names, cyclic permutation of the existing names), at most two of the three non-trivial at once, on four base programs. Trace_Rel validates each pair: instruction sequences equal after renaming, and the multiset of (kind, instruction index, operand) of the renamed program equals the original one with registers mapped through the permutation.",
+    text="TLC enumerates Gen_Rename: identity, every transposition and every rotation of the temporary class t0-t6 and of the saved class s0-s11 (each register of a class is moved), six label renaming schemes (suffix, leading underscore, digits, long names, cyclic permutation of the existing names), at most two of the three non-trivial at once, on four base programs. Trace_Rel validates each pair: instruction sequences equal after renaming, and the multiset of (kind, instruction index, operand) of the renamed program equals the original one with registers mapped through the permutation. Seven label schemes incl. one that reverses the alphabetical order of the labels; eight abstract programs (see C13).",
     design_ref="DESIGN.md §5 C14",
     note="Trusted: TLC, renderer lib/absprog.py, harness projection. quick tier: 1500 renamings sampled by seed from the enumerated set; thorough: all.",
     technique="TLA+ relational trace specification (Trace_Rel: equivariance) + TLC-enumerated permutations/renamings replayed into the real pipeline"),
  "C04": dict(
     category="model_checking",
-    text="tlc -simulate over Gen_Conform, a TLA+ generator of programs that conform by construction: leaf templates (loop, if-else, stack local, print ecall, two arguments), non-leaf templates (wrapper with a saved register, recursion, two calls with two saved registers), five frame layouts, call sequences of main, optional third function, explicit .data/.text; each program in three spellings. A prefix of the programs is confirmed on the reference machine (every execution ends in the exit ecall without leaving the convention, and raises no C01/C02/C03 monitor). Every program is linted by the real pipeline and Trace_Diag requires the diagnostic list (parse errors, CFG errors, lints) to be empty.",
+    text="tlc -simulate over Gen_Conform, a TLA+ generator of programs that conform by construction: leaf templates (loop, if-else, stack local, print ecall, two arguments), non-leaf templates (wrapper with a saved register, recursion, two calls with two saved registers), five frame layouts, call sequences of main, optional third function, explicit .data/.text; each program in three spellings. A prefix of the programs is confirmed on the reference machine (every execution ends in the exit ecall without leaving the convention, and raises no C01/C02/C03 monitor). Every program is linted by the real pipeline and Trace_Diag requires the diagnostic list (parse errors, CFG errors, lints) to be empty. Also: templates with a bottom-tested loop inside a frame, two returns with frame, environment-call wrappers (result handed back untouched; result register is also an argument: 9, 42); a small covering family (every template x every way its result is consumed) is run in full by every check; every program is also run with its saved and temporary registers rotated inside their class, with tabs and with numeric register names.",
     design_ref="DESIGN.md §5 C04",
     note="Trusted: TLC, Gen_Conform templates (conformance by construction, spot-confirmed dynamically), Machine.tla, harness projection. Bounded: programs of three or four functions of these shapes.",
     technique="TLA+ generator of conforming-by-construction programs (Gen_Conform) confirmed on the TLA+ reference machine + replay into the real pipeline + TLC trace validation (no diagnostics)"),
  "C05": dict(
     category="model_checking",
-    text="Gen_Conform with WithInject = TRUE: on top of a conforming base program one tagged line is deleted, replaced or inserted according to 17 injection kinds (saved register / sp / ra not restored, temporary read after a call, never-assigned register in a function / in main, unused assignment, arithmetic write to zero, stack access at / above the entry sp, instruction in .data, ecall with unknown number, unreachable code after ret / after a jump, jump into a function, fall-through into a function, function as first line); the generator states the expected diagnostic kinds, line and register operand by construction. The real pipeline lints each injected program and Trace_Diag requires a diagnostic of an expected kind on that line (and operand).",
+    text="Gen_Conform with WithInject = TRUE: on top of a conforming base program one tagged line is deleted, replaced or inserted according to 17 injection kinds (saved register / sp / ra not restored, temporary read after a call, never-assigned register in a function / in main, unused assignment, arithmetic write to zero, stack access at / above the entry sp, instruction in .data, ecall with unknown number, unreachable code after ret / after a jump, jump into a function, fall-through into a function, function as first line); the generator states the expected diagnostic kinds, line and register operand by construction. The real pipeline lints each injected program and Trace_Diag requires a diagnostic of an expected kind on that line (and operand). Also: the covering family with every injection kind (all three variants for the stack kinds: store of a register, store of zero, sub-word store / load), injections on the path to the later of two returns.",
     design_ref="DESIGN.md §5 C05",
     note="Trusted: TLC, the injectors' expectations (stated independently of the lints), harness projection. Additional diagnostics are allowed.",
     technique="TLA+ violation injectors with by-construction expectations (Gen_Conform) + replay into the real pipeline + TLC trace validation of kind and location"),
  "C06": dict(
     category="exploration",
-    text="Exploration of a structured, bounded input model, judged by Trace_Robust (the only accepted run is start -> diagnostics -> end; panic, watchdog timeout, crash, non-zero exit are events no action matches): all strings over a 26-symbol lexer alphabet (quotes, backslash, u, digits, '#', '.', ':', parentheses, '-', ',', blank, tab, CR, LF, NUL, 2-/3-/4-byte code points, '@', '+') up to length 3|4, exhaustive from Gen_Strings; boundary-grid programs of Gen_Overflow (28 shapes of folding, immediates, sp arithmetic, offsets, data, CSR); every include graph over three files incl. self loops, cycles and missing files (Gen_IncGraph), also with a reader that never reports cycles; Gen_Values / Gen_Flow simulations; token- and line-level mutations and truncations of corpus programs; scaled programs for the sweep bound 4N+3 (rva_verif counters); the rva binary in 10 output modes (debug; release in the thorough tier).",
+    text="Exploration of a structured, bounded input model, judged by Trace_Robust (the only accepted run is start -> diagnostics -> end; panic, watchdog timeout, crash, non-zero exit are events no action matches): all strings over a 26-symbol lexer alphabet (quotes, backslash, u, digits, '#', '.', ':', parentheses, '-', ',', blank, tab, CR, LF, NUL, 2-/3-/4-byte code points, '@', '+') up to length 3|4, exhaustive from Gen_Strings; boundary-grid programs of Gen_Overflow (28 shapes of folding, immediates, sp arithmetic, offsets, data, CSR); every include graph over three files incl. self loops, cycles and missing files (Gen_IncGraph), also with a reader that never reports cycles; Gen_Values / Gen_Flow simulations; token- and line-level mutations and truncations of corpus programs; scaled programs for the sweep bound 4N+3 (rva_verif counters); the rva binary in 10 output modes (debug; release in the thorough tier). Also: long runs (30-200 kB) of every alphabet symbol, statement line and symbol pair through the harness and through the rva binary (its own stack), an alphabet with multi-byte blanks (28 symbols), text with multi-byte characters in front of a reported position through the pretty printer, sp moved close to i32::MAX followed by word and sub-word stores and calls.",
     design_ref="DESIGN.md §5 C06",
     note="Crash-freedom over arbitrary Unicode is a fuzzing question; this check decides it only for the input model above (stated in the evidence). Debug profile with overflow checks for the library entry point. Trusted: TLC generators, harness watchdog (10 s), driver.",
     technique="TLC-enumerated adversarial input model (strings, boundary programs, include graphs) replayed under a watchdog + TLA+ totality trace specification (Trace_Robust) + sweep-counter hooks"),
